@@ -741,8 +741,10 @@ class C03(Check):
         "I2b": "bulk atomicity: a loop whose body writes must not be able to reject in a later iteration",
         "I3": "one name space: a store under a new key is dominated by _insert_id(key); each container removal is "
               "paired with _remove_id of the same key and vice versa",
+        "I4": "no public query hands out the memoised cache's own mutable containers (a caller editing the result would edit the "
+              "cache and change later answers); copies, fresh comprehensions and scalars are fine",
     }
-    floors = {"I1": 25, "I2": 25, "I3": 25}
+    floors = {"I1": 25, "I2": 25, "I3": 25, "I4": 8}
     decided = [
         "every public mutator resets / rebuilds the memoised cache on every path that changes content",
         "a rejected single edit has written nothing before the rejection",
@@ -766,6 +768,7 @@ class C03(Check):
         }
         if not {"_parameters", "_variables", "_reactions", "_derived"} <= m.content_fields:
             raise AnalysisError(f"content fields not recognised: {sorted(m.content_fields)}")
+        self.i4(m)
         public = [
             n for n in m.methods
             if not n.startswith("_") and n in m.writes
@@ -838,6 +841,30 @@ class C03(Check):
             if not evs:
                 self.holds("I3", MOD, q, "ids-paired", fn, "every store/removal is paired with the name-space update")
 
+    def i4(self, m: "Machine") -> None:
+        for name, fn in m.methods.items():
+            if name.startswith("_") and name != "__call__":
+                continue
+            cache_names = {"self._cache"}
+            for n in walk_no_nested(fn):
+                if isinstance(n, ast.NamedExpr) and norm(n.value) == "self._cache":
+                    cache_names.add(n.target.id)
+                if isinstance(n, ast.Assign) and isinstance(n.targets[0], ast.Name) and norm(n.value) in ("self._create_cache()", "self._cache"):
+                    cache_names.add(n.targets[0].id)
+            if len(cache_names) == 1 and "self._cache" not in norm(fn):
+                continue
+            rets = [r for r in walk_no_nested(fn) if isinstance(r, ast.Return) and r.value is not None]
+            leaked = [r for r in rets if isinstance(r.value, ast.Attribute) and norm(r.value.value) in cache_names]
+            q = f"{CLS}.{name}"
+            if leaked:
+                r = leaked[0]
+                self.violated("I4", MOD, q, f"returns {norm(r.value).split('.')[-1]}", r,
+                              f"`{norm(r)}` hands out the cache's own container: a caller that edits the result edits the memoised state and "
+                              "changes what later queries (and every Simulator's default start) answer",
+                              witness=f"d = model.{name}(); d.clear(); model.{name}() is now empty although the model's content is unchanged")
+            elif rets:
+                self.holds("I4", MOD, q, "no-cache-container-escapes", rets[0], "returns a copy / a freshly built object / a scalar")
+
     # ---- checker validation
     def must_fire(self) -> list[Variant]:
         v = []
@@ -860,6 +887,10 @@ class C03(Check):
             Variant("query-then-write", MOD, f"{CLS}.update_derived", "der = self._derived[name]\n",
                     "der = self._derived[name]\n    self.get_parameter_values()\n",
                     expect="I1|model.py|Model.update_derived|"),
+            Variant("getter-returns-cache-dict", MOD, f"{CLS}.get_parameter_values", "return dict(cache.base_parameter_values)", "return cache.base_parameter_values",
+                    expect="I4|model.py|Model.get_parameter_values|", quick=True),
+            Variant("ic-getter-returns-cache-dict", MOD, f"{CLS}.get_initial_conditions", "return dict(cache.initial_conditions)", "return cache.initial_conditions",
+                    expect="I4|model.py|Model.get_initial_conditions|"),
             Variant("reintroduce-update_data-create", MOD, f"{CLS}.update_data",
                     "    if name not in self._data:\n        msg = f\"'{name}' not found in data\"\n        raise KeyError(msg)\n", "",
                     expect="I3|model.py|Model.update_data|store:_data"),
